@@ -148,3 +148,92 @@ def build(chk):
                             prove("walls-invariant[%s]" % cn, T.treal(S) == 0, replay=rp)
                     canary("canary", T.treal(res[0].at(i)) * vol == 1 - (T.treal(flux[0].at(i + 1)) - T.treal(flux[0].at(i))))
                 chk.run(cfg, op)
+
+
+# ==========================================================================================================================
+# 2-D Cartesian operator (symbolic nx, ny; row loops by the parallel-map rule with Euclidean-division skolems)
+
+def build2d(chk):
+    it = chk.interp
+    from pyvc.framework import lazy_safety
+    NUM2D = [("extrapol2d1", False), ("extrapol2dk", True)]
+    BC2D = [("per", "per"), ("sym", "sym"), ("per", "sym"), ("sym", "per")]      # (left/right, bottom/top)
+    for numname, haskappa in NUM2D:
+        for bx, by in BC2D:
+            cfg = "fvm2dcart/euler2d/%s/x=%s,y=%s" % (numname, bx, by)
+            chk.configs.append(cfg)
+            rp = {"fn": "conservation2d_clause", "args": {"num": numname, "bx": bx, "by": by}}
+
+            def op(numname=numname, haskappa=haskappa, bx=bx, by=by, rp=rp):
+                nx, ny = z3.Int("nx"), z3.Int("ny")
+                lx, ly = z3.Real("lx"), z3.Real("ly")
+                assume(z3.And(nx >= 1, ny >= 1, lx > 0, ly > 0))
+                mesh = it.call(get(chk, "flowdyn.mesh2d", "mesh2d"), [nx, ny, lx, ly], {})
+                m, info = make_model(chk, "euler2d")
+                num = it.call(get(chk, "flowdyn.xnum", numname), [z3.Real("kappa")] if haskappa else [], {})
+                bc = {"left": {"type": bx}, "right": {"type": bx}, "bottom": {"type": by}, "top": {"type": by}}
+                disc = it.call(get(chk, "flowdyn.modeldisc", "fvm2dcart"), [m, mesh, num, bc], {})
+                n = nx * ny
+                J, I = z3.Int("J"), z3.Int("I")
+                assume(z3.And(J >= 0, J < ny, I >= 0, I < nx))
+                Jb, Ib = z3.Int("Jb"), z3.Int("Ib")
+                assume(z3.And(Jb >= 0, Jb < ny, Ib >= 0, Ib < nx))
+                # index arithmetic (nonlinear in nx, ny), proved once and then used by the inline guard decisions
+                lemma("index-products", z3.And(J * nx >= 0, (ny - 1 - J) * nx >= 0, Jb * nx >= 0, (ny - 1 - Jb) * nx >= 0,
+                                               (nx - 1) * (ny - 1) >= 0))
+                Q, P = cons_state("euler2d", n, "W", info)
+                fld = make_field(chk, m, mesh, Q)
+                with use_flux_contract(it, "euler2d", info, requires=False, opaque=True) as fc, lazy_safety():
+                    res = it.call(it.getattr(disc, "rhs"), [fld], {})
+                prove("flux-evaluated-once", fc.calls == 1, replay=rp)
+                G = fc.last["G"]
+                c = J * nx + I
+                dx, dy = lx / z3.ToReal(nx), ly / z3.ToReal(ny)
+                fsh = ny * (nx + 1)
+                resf = flat_at(res, c)
+                for k, cn in enumerate(comp_names("euler2d")):
+                    Fx1, Fx0 = T.treal(G[k].at(J * (nx + 1) + I + 1)), T.treal(G[k].at(J * (nx + 1) + I))
+                    Fy1, Fy0 = T.treal(G[k].at(fsh + (J + 1) * nx + I)), T.treal(G[k].at(fsh + J * nx + I))
+                    prove("cell-balance[%s]" % cn, resf[k] * dx * dy == -dy * (Fx1 - Fx0) - dx * (Fy1 - Fy0), replay=rp)
+                prove("flux-array-length", T.eq(G[0].length, (nx + 1) * ny + nx * (ny + 1)), replay=rp)
+                # boundary faces: periodic pairs see the same states; walls carry no mass / energy
+                fl, fr = Jb * (nx + 1), Jb * (nx + 1) + nx
+                fb, ft = fsh + Ib, fsh + ny * nx + Ib
+                def staged_equal(name, f1, f2):
+                    # one lemma per face-state component (small cones), then the contract instance
+                    a1, a2 = fc.last["args_at"](f1), fc.last["args_at"](f2)
+                    for j, (x, y) in enumerate(zip(a1, a2)):
+                        if not (T.is_sym(x) and T.is_sym(y) and x.eq(y)):
+                            lemma("%s/arg%d" % (name, j), x == y)
+                    lemma(name, fc.instance_equal_faces(f1, f2))
+                if bx == "per":
+                    staged_equal("left-right-faces-see-the-same-states", fl, fr)
+                    for k, cn in enumerate(comp_names("euler2d")):
+                        prove("periodic-x[%s]" % cn, T.treal(G[k].at(fl)) == T.treal(G[k].at(fr)), replay=rp)
+                else:
+                    lemma("left-face-is-a-wall", fc.instance_wall(fl, interior="R"))
+                    lemma("right-face-is-a-wall", fc.instance_wall(fr, interior="L"))
+                    for k in (0, 3):
+                        prove("wall-x-no-flux[%s]" % comp_names("euler2d")[k],
+                              z3.And(T.treal(G[k].at(fl)) == 0, T.treal(G[k].at(fr)) == 0), replay=rp)
+                if by == "per":
+                    staged_equal("bottom-top-faces-see-the-same-states", fb, ft)
+                    for k, cn in enumerate(comp_names("euler2d")):
+                        prove("periodic-y[%s]" % cn, T.treal(G[k].at(fb)) == T.treal(G[k].at(ft)), replay=rp)
+                else:
+                    lemma("bottom-face-is-a-wall", fc.instance_wall(fb, interior="R"))
+                    lemma("top-face-is-a-wall", fc.instance_wall(ft, interior="L"))
+                    for k in (0, 3):
+                        prove("wall-y-no-flux[%s]" % comp_names("euler2d")[k],
+                              z3.And(T.treal(G[k].at(fb)) == 0, T.treal(G[k].at(ft)) == 0), replay=rp)
+            chk.run(cfg, op)
+    chk.lemmas.append("2-D: the volume integral is the double telescoping sum of the per-cell balance over rows and columns "
+                      "(sum-induction lemma applied along x then y): interior faces cancel, the boundary faces remain")
+
+
+_build1d = build
+
+
+def build(chk):
+    _build1d(chk)
+    build2d(chk)
